@@ -32,6 +32,7 @@ type formCtx struct {
 	// skipRange: loops over these collections are assumed to run zero times (evaluation under "the collection is empty")
 	skipRange func(e ast.Expr) bool
 	depth     int
+	resultIdx int // which result of a multi-value predicate body is being evaluated
 }
 
 // term canonicalises an operand: receiver/variable names are replaced by their static type.
@@ -126,6 +127,27 @@ func (fc *formCtx) form(e ast.Expr) *bform {
 			inner.depth++
 			return inner.form(def)
 		}
+		// ... or is one of the results of a repo predicate: _, _, selected, err := it.bind(msg)
+		if call, k := multiResultDef(fc.g, fc.g.info.ObjectOf(x)); call != nil && fc.depth < 5 {
+			if fn := fc.g.calleeOf(call); fn != nil {
+				if fd := fc.g.decls[fn]; fd != nil && fd.Body != nil {
+					env := map[types.Object]string{}
+					i := 0
+					for _, fl := range fd.Type.Params.List {
+						for _, nm := range fl.Names {
+							if i < len(call.Args) {
+								env[fc.g.info.ObjectOf(nm)] = fc.term(call.Args[i])
+							}
+							i++
+						}
+					}
+					inner := &formCtx{g: fc.g, env: env, alias: fc.alias, skipRange: fc.skipRange, depth: fc.depth + 1, resultIdx: k}
+					if f := inner.bodyForm(fd.Body.List); f != nil {
+						return f
+					}
+				}
+			}
+		}
 	case *ast.CallExpr:
 		// inline a repo predicate: a single return, or a chain of `if c { return x }` guards ending in a return
 		if fn := fc.g.calleeOf(x); fn != nil && fc.depth < 5 {
@@ -162,17 +184,23 @@ func (fc *formCtx) bodyForm(stmts []ast.Stmt) *bform {
 			return fc.bodyForm(stmts[1:])
 		}
 		return nil
+	case *ast.AssignStmt, *ast.DeclStmt, *ast.ExprStmt:
+		// straight-line statements between the guards (lookups into locals); conditions on them stay opaque atoms
+		if fc.resultIdx > 0 || len(stmts) > 1 {
+			return fc.bodyForm(stmts[1:])
+		}
+		return nil
 	case *ast.ReturnStmt:
-		if len(x.Results) != 1 {
+		if len(x.Results) <= fc.resultIdx {
 			return nil
 		}
-		return fc.form(x.Results[0])
+		return fc.form(x.Results[fc.resultIdx])
 	case *ast.IfStmt:
-		if x.Init != nil || x.Else != nil || len(x.Body.List) != 1 {
+		if x.Init != nil || x.Else != nil || len(x.Body.List) == 0 {
 			return nil
 		}
-		rs, ok := x.Body.List[0].(*ast.ReturnStmt)
-		if !ok || len(rs.Results) != 1 {
+		rs, ok := x.Body.List[len(x.Body.List)-1].(*ast.ReturnStmt)
+		if !ok || len(rs.Results) <= fc.resultIdx {
 			return nil
 		}
 		rest := fc.bodyForm(stmts[1:])
@@ -180,10 +208,10 @@ func (fc *formCtx) bodyForm(stmts []ast.Stmt) *bform {
 			return nil
 		}
 		c := fc.form(x.Cond)
-		return &bform{op: "or", kids: []*bform{
-			{op: "and", kids: []*bform{c, fc.form(rs.Results[0])}},
+		return simplifyForm(&bform{op: "or", kids: []*bform{
+			{op: "and", kids: []*bform{c, fc.form(rs.Results[fc.resultIdx])}},
 			{op: "and", kids: []*bform{{op: "not", kids: []*bform{c}}, rest}},
-		}}
+		}})
 	}
 	return nil
 }
@@ -539,4 +567,105 @@ func singleBoolDef(g *goLayouts, obj types.Object) ast.Expr {
 		return nil
 	}
 	return def
+}
+
+var multiDefsMemo = map[*goLayouts]map[types.Object]struct {
+	call *ast.CallExpr
+	k    int
+}{}
+
+// multiResultDef: obj is a boolean local defined exactly once as the k-th result of a call (a, b, ok, err := f(...)).
+func multiResultDef(g *goLayouts, obj types.Object) (*ast.CallExpr, int) {
+	if obj == nil {
+		return nil, 0
+	}
+	if b, ok := obj.Type().Underlying().(*types.Basic); !ok || b.Kind() != types.Bool {
+		return nil, 0
+	}
+	m, ok := multiDefsMemo[g]
+	if !ok {
+		m = map[types.Object]struct {
+			call *ast.CallExpr
+			k    int
+		}{}
+		count := map[types.Object]int{}
+		for _, f := range g.p.Pkgs[g.pkg].Syntax {
+			ast.Inspect(f, func(n ast.Node) bool {
+				as, ok := n.(*ast.AssignStmt)
+				if !ok {
+					return true
+				}
+				for i, l := range as.Lhs {
+					id, ok := l.(*ast.Ident)
+					if !ok {
+						continue
+					}
+					o := g.info.ObjectOf(id)
+					if o == nil {
+						continue
+					}
+					count[o]++
+					if as.Tok == token.DEFINE && len(as.Rhs) == 1 && len(as.Lhs) > 1 {
+						if ce, ok := as.Rhs[0].(*ast.CallExpr); ok {
+							m[o] = struct {
+								call *ast.CallExpr
+								k    int
+							}{ce, i}
+						}
+					}
+				}
+				return true
+			})
+		}
+		for o, c := range count {
+			if c != 1 {
+				delete(m, o)
+			}
+		}
+		multiDefsMemo[g] = m
+	}
+	e := m[obj]
+	return e.call, e.k
+}
+
+// simplifyForm folds the constants true/false out of and/or/not.
+func simplifyForm(f *bform) *bform {
+	if f == nil {
+		return nil
+	}
+	switch f.op {
+	case "not":
+		k := simplifyForm(f.kids[0])
+		switch k.op {
+		case "true":
+			return &bform{op: "false"}
+		case "false":
+			return &bform{op: "true"}
+		}
+		return &bform{op: "not", kids: []*bform{k}}
+	case "and", "or":
+		unit, zero := "true", "false"
+		if f.op == "or" {
+			unit, zero = "false", "true"
+		}
+		var kids []*bform
+		for _, k := range f.kids {
+			k = simplifyForm(k)
+			if k.op == zero {
+				return &bform{op: zero}
+			}
+			if k.op == unit {
+				continue
+			}
+			kids = append(kids, k)
+		}
+		switch len(kids) {
+		case 0:
+			return &bform{op: unit}
+		case 1:
+			return kids[0]
+		}
+		return &bform{op: f.op, kids: kids}
+	}
+	return f
 }
